@@ -54,8 +54,7 @@ fn lexical_links(t: &mut Tree) {
 
 static SEQ: std::sync::atomic::AtomicU64 = std::sync::atomic::AtomicU64::new(0);
 
-/// Domain of the Stdfs runs: every link leads (through links) to an existing non-link entry, no argument
-/// passes through a link, the root itself is not the source
+/// Domain of the Stdfs runs: no argument passes through a link, the root itself is not the source
 pub fn stdfs_domain(pre: &Tree, s: &str, d: &str) -> bool {
     let resolves = |start: &str| -> bool {
         let mut t = start.to_string();
@@ -78,7 +77,9 @@ pub fn stdfs_domain(pre: &Tree, s: &str, d: &str) -> bool {
         }
         false
     };
-    s != "/" && pre.nodes.iter().all(|(k, n)| n.kind() != Kind::Link || resolves(k)) && !through_link(s) && !through_link(d)
+    // (dangling links are fine here: the predicates compare the disk with itself, not with Memfs)
+    let _ = &resolves;
+    s != "/" && !through_link(s) && !through_link(d)
 }
 
 const CMODE: u32 = 0o711;
@@ -475,7 +476,7 @@ pub fn check_copy(case: &CopyCase) -> CaseResult {
 }
 
 pub fn run(c: &Ctx) {
-    c.set_rule("exhaustive: every tree over the namespace {/a,/b} x {a,b} where each top-level slot is missing / file / link (to /a,/b,/a/a,/nope,/b/b) / directory with two children each missing / file / dir / link (3025 trees; every fourth gets non-default modes, owners or both), materialised on a fresh Memfs; x every ordered (src,dst) pair of 12 paths (the namespace, root, missing names, a missing parent, deeper-than-namespace) x {copy, copy+chmod_all, +chmod_dirs, +chmod_files, +follow, move_p, chmod_files-then-chmod_all, chmod_all-then-chmod_dirs (the later option replaces the earlier)}. quick: a seeded 1/3 of the trees, thorough: all (3.5 M cases); a seeded 1/40 (quick) / 1/12 (thorough) of the cases whose tree has only resolving links and whose arguments do not pass through a link also runs through Stdfs on a tmpfs copy of the tree (materialised and observed with std::fs), same predicates. Oracle: postcondition predicates on the dump before/after (DESIGN section 4 C09): source untouched, every source entry has a copy at the same relative path with same kind/bytes/link target, new entries carry the source mode unless the chmod option selects their kind, existing entries kept, nothing outside the destination changes (except created ancestors); move: source gone, destination == former subtree (modes, owners, bytes, link text; relative links resolve from the new location), rest unchanged, failed move changes nothing; C03 invariants; call returns. Non-trivial = src exists and (dst exists or src/dst nested or an option is set); distinct by (tree, src, dst, variant).");
+    c.set_rule("exhaustive: every tree over the namespace {/a,/b} x {a,b} where each top-level slot is missing / file / link (to /a,/b,/a/a,/nope,/b/b) / directory with two children each missing / file / dir / link (3025 trees; every fourth gets non-default modes, owners or both), materialised on a fresh Memfs; x every ordered (src,dst) pair of 12 paths (the namespace, root, missing names, a missing parent, deeper-than-namespace) x {copy, copy+chmod_all, +chmod_dirs, +chmod_files, +follow, move_p, chmod_files-then-chmod_all, chmod_all-then-chmod_dirs (the later option replaces the earlier)}. quick: a seeded 1/3 of the trees, thorough: all (3.5 M cases); a seeded 1/40 (quick) / 1/12 (thorough) of the cases whose arguments do not pass through a link also runs through Stdfs on a tmpfs copy of the tree (materialised and observed with std::fs), same predicates. Oracle: postcondition predicates on the dump before/after (DESIGN section 4 C09): source untouched, every source entry has a copy at the same relative path with same kind/bytes/link target, new entries carry the source mode unless the chmod option selects their kind, existing entries kept, nothing outside the destination changes (except created ancestors); move: source gone, destination == former subtree (modes, owners, bytes, link text; relative links resolve from the new location), rest unchanged, failed move changes nothing; C03 invariants; call returns. Non-trivial = src exists and (dst exists or src/dst nested or an option is set); distinct by (tree, src, dst, variant).");
     c.assume("copy with follow on a source containing links: only frame conditions are asserted (placement undocumented)");
     let trees = all_trees();
     let paths = arg_paths();
